@@ -34,9 +34,11 @@ type World struct {
 	ByObj  map[*types.Func]*FuncInfo
 	Specs  *SpecWorld
 	Repo   string
-	effMemo map[*types.Func]*Effects
-	effBusy map[*types.Func]bool
+	cg *callGraph
+	rtaInfo *rtaInfo
+	nonNilGlobals map[string]bool
 	skipTerminating *ast.BlockStmt
+	noCalleeEffects bool
 }
 
 func funcShort(fd *ast.FuncDecl) string {
@@ -161,4 +163,78 @@ func (w *World) relPos(p token.Pos) string {
 		rel = pos.Filename
 	}
 	return fmt.Sprintf("%s:%d", rel, pos.Line)
+}
+
+// globalInitNonNil: the package-level variable is declared with a constructor call (errors.New(...), &T{...})
+// and never assigned afterwards (checked over the loaded packages for their own variables).
+func (w *World) globalInitNonNil(v *types.Var) bool {
+	if w.nonNilGlobals == nil {
+		w.nonNilGlobals = map[string]bool{}
+		assigned := map[string]bool{}
+		scan := func(pkgs []*packages.Package) {
+			for _, p := range pkgs {
+				for _, f := range p.Syntax {
+					for _, d := range f.Decls {
+						switch x := d.(type) {
+						case *ast.GenDecl:
+							if x.Tok != token.VAR {
+								continue
+							}
+							for _, sp := range x.Specs {
+								vs := sp.(*ast.ValueSpec)
+								if len(vs.Values) != len(vs.Names) {
+									continue
+								}
+								for i, n := range vs.Names {
+									ok := false
+									switch init := stripParens(vs.Values[i]).(type) {
+									case *ast.CallExpr:
+										name := exprString(init.Fun)
+										if strings.HasSuffix(name, "New") || strings.HasSuffix(name, "Errorf") || strings.Contains(name, "NewErr") {
+											ok = true
+										}
+									case *ast.UnaryExpr:
+										if _, isLit := init.X.(*ast.CompositeLit); isLit && init.Op == token.AND {
+											ok = true
+										}
+									}
+									if ok {
+										w.nonNilGlobals[p.PkgPath+"."+n.Name] = true
+									}
+								}
+							}
+						case *ast.FuncDecl:
+							if x.Body == nil {
+								continue
+							}
+							ast.Inspect(x.Body, func(nn ast.Node) bool {
+								if as, ok := nn.(*ast.AssignStmt); ok && as.Tok == token.ASSIGN {
+									for _, l := range as.Lhs {
+										if id, ok := stripParens(l).(*ast.Ident); ok {
+											if gv, ok := p.TypesInfo.Uses[id].(*types.Var); ok && gv.Pkg() != nil && gv.Parent() == gv.Pkg().Scope() {
+												assigned[gv.Pkg().Path()+"."+gv.Name()] = true
+											}
+										}
+									}
+								}
+								return true
+							})
+						}
+					}
+				}
+			}
+		}
+		scan(w.Pkgs)
+		// well-known sentinel errors of the standard library
+		for _, k := range []string{"io.EOF", "io.ErrUnexpectedEOF", "io.ErrShortWrite", "os.ErrNotExist", "os.ErrExist"} {
+			w.nonNilGlobals[k] = true
+		}
+		for k := range assigned {
+			delete(w.nonNilGlobals, k)
+		}
+	}
+	if v.Pkg() == nil {
+		return false
+	}
+	return w.nonNilGlobals[v.Pkg().Path()+"."+v.Name()]
 }
